@@ -30,7 +30,7 @@ TEXT = {
         "level": "Theorems on the flat (family, qualifier, cell) view of a row: the derivative regex matcher decides the declarative language (whole-field, bytewise); row limit = take, "
                  "offset = drop, per-cell filters = filter+map with their admission tests, column limit per column, chain = left-to-right composition, condition = branch by "
                  "'predicate yields a cell', interleave = multiset union of matching branches per column, sample = all or nothing; every invalid argument at any depth makes the "
-                 "request InvalidArgument before any row is looked at. Tied to the code by the complete leaf basis and all depth-2 compositions, plus random trees to depth 4. validateFilter's and includeCell's Go text (the type switches over the filter oneof, their checks, the recursion, the open/closed/unset range bounds) is regenerated into Lean on every run and proved equal to the Model's validFilter (every filter tree) and includeCell (every validated filter).",
+                 "request InvalidArgument before any row is looked at. Tied to the code by the complete leaf basis and all depth-2 compositions, plus random trees to depth 4. validateFilter's, includeCell's and modifyCell's Go text (the type switches over the filter oneof, their checks, the recursion, the open/closed/unset range bounds, the cell literals of the transformers) is regenerated into Lean on every run and proved equal to the Model's validFilter (every filter tree), includeCell and modifyCell (every validated filter).",
         "note": COMMON_NOTE,
         "technique": "Lean 4 proof (structural induction, mutual recursion over the filter tree, Brzozowski derivatives); exhaustive + random differential correspondence",
     },
@@ -47,7 +47,7 @@ TEXT = {
     "C12": {
         "level": "Theorems: CheckAndMutateRow is, for every valid predicate tree, row state and pair of mutation lists, exactly 'matched = predicate yields a cell; apply the selected list "
                  "with MutateRow semantics'; invalid predicate => InvalidArgument, invalid mutation in the selected branch => error, other branch irrelevant, frame for other rows, and "
-                 "matched agrees with what ReadRows with the same filter emits. Tied to the code by random predicates x mutation-list pairs over histories on three engines. validateFilter's and includeCell's Go text (the type switches over the filter oneof, their checks, the recursion, the open/closed/unset range bounds) is regenerated into Lean on every run and proved equal to the Model's validFilter (every filter tree) and includeCell (every validated filter).",
+                 "matched agrees with what ReadRows with the same filter emits. Tied to the code by random predicates x mutation-list pairs over histories on three engines. validateFilter's, includeCell's and modifyCell's Go text (the type switches over the filter oneof, their checks, the recursion, the open/closed/unset range bounds, the cell literals of the transformers) is regenerated into Lean on every run and proved equal to the Model's validFilter (every filter tree), includeCell and modifyCell (every validated filter).",
         "note": COMMON_NOTE,
         "technique": "Lean 4 proof (decision logic stated outright + frame); differential correspondence",
     },
